@@ -231,7 +231,7 @@ def gen(ctx, deep):
         ops = ec.op_alphabet(shape)
         ops += [("update", P[0], P[1]), ("updatemany", [P[0], P[1]], [P[1], P[0]])]
         inits = [{"p": [], "g": [], "g2": []}, {"p": P, "g": G, "g2": G2}]
-        for adapter, watcher in ((True, None), (True, "ex"), (True, "upd"), (True, "plain"), (False, None)):
+        for adapter, watcher in ((True, None), (True, "ex"), (True, "upd"), (True, "plain"), (False, None), (False, "ex")):
             for init in inits:
                 usable = [o for o in ops if adapter or o[0] not in ("load", "save")]
                 for a in usable:
@@ -241,6 +241,18 @@ def gen(ctx, deep):
                     for a in sample:
                         for b in sample:
                             jobs.append((shape, adapter, watcher, init, [a, b]))
+                if adapter:
+                    # reloads that fail: while the adapter delivers, and while the role links are being built
+                    short = G[0][:-1]
+                    for bad in ({"p": P, "g": G[:1] + [G[2], short], "g2": G2}, {"p": P, "g": [short], "g2": G2}):
+                        jobs.append((shape, adapter, watcher, init, [("setstore", bad), ("load", None), ("add", "g", G[1])]))
+                    for k in (0, 2):
+                        jobs.append((shape, adapter, watcher, init, [("load", k), ("remove", "g", G[0])]))
+                if watcher:
+                    # auto-save off / no adapter at all, with a watcher attached
+                    for a in usable:
+                        if a[0] in ("add", "addmany", "remove", "removemany", "removefiltered", "delete_user", "delete_role", "delete_roles_for_user", "updatefiltered"):
+                            jobs.append((shape, adapter, watcher, init, [("autosave", False), a]))
                 n = 60 if not deep else 600
                 for _ in range(n):
                     jobs.append((shape, adapter, watcher, init, [rng.choice(usable) for _ in range(rng.randint(3, 9))]))
